@@ -262,6 +262,26 @@ PROPS["C08"] = {
     "assumptions": ["runs that hit the harness's fuel/effect budget are compared only up to 'budget'"],
 }
 
+PROPS["C05"] = {
+    "pkg": "p05",
+    "needs_evy": True,
+    "level": "exploration",
+    "level_text": "For ~4*10^4 (quick) / ~5*10^5 (thorough) generated valid programs (with output, drawing, input and sleep effects textually "
+                  "first) one rule-breaking edit is placed by construction - 16 rule families, ~60 concrete edits - at a random position of a "
+                  "random block (top level, nested blocks, function bodies, handler bodies). The parser must return located errors, "
+                  "Evaluator.Run must return them with zero platform calls and zero yields, and on a sample the real `evy run` must exit "
+                  "non-zero with empty stdout, non-empty stderr and no SVG file created.",
+    "level_note": "Each edit is chosen so that it breaks the rule wherever it is placed (or is only placed where it does: break outside "
+                  "loops, value returns in procedures/handlers, definitions at top level).",
+    "technique": "property-based testing with constructive rule-breaking edits of generated valid programs (rapid)",
+    "tests": [
+        {"name": "TestProp", "quick": {"shards": 8, "checks": 5000}, "thorough": {"shards": 16, "checks": 30000}},
+    ],
+    "rule": "cases: (valid program, rule, position). Every case is non-trivial by construction: effects precede the edit, so 'nothing ran' "
+            "is never vacuous; distinct by source text. Histogram rule x position class in coverage.classes.",
+    "assumptions": [],
+}
+
 NOT_APPLICABLE = {}
 
 ENGINES = [
